@@ -25,6 +25,7 @@ inductive Op
   | subscribe (sid : SidRef) (cb : Option Str) (timeout : Option Str)  -- SUBSCRIBE (new when `sid = absent`, else renewal)
   | unsubscribe (sid : SidRef)
   | set (x : Nat) (v : Int)          -- `service.state_variable(x).value = v`
+  | setMany (l : List (Nat × Int))   -- several assignments one after the other without yielding to the loop
   | adv (dt : Nat)                   -- virtual time passes (timers that fall due fire in order)
   | done (k : Nat)                   -- the k-th NOTIFY delivery completes
   | setKey (sid : Nat) (k : Nat)     -- test hook: preset a subscriber's event key (to reach the wrap)
